@@ -178,16 +178,55 @@ Theorem attr_parent_is_owner : forall doc dr ir dp ip n i,
 Proof. exact attr_parent_is_owner. Qed.
 
 (* ---- idr/query.go: MatchAll / MatchSingle / MatchAny over ANY iterator --------------------------------- *)
-(* MatchAll returns exactly the engine's iteration: every node, in iteration order, duplicates
-   kept, nothing else (both directions). *)
-Theorem match_all_is_the_iteration : forall (S N : Type) (next : S -> istep S N) self s l,
-  (exists fuel, match_all next false self (Some s) fuel = WOk l) <-> yields S N next s l false.
+(* The iterator is abstract (state, step = node / end / panic), eqb is Go's == on nodes, and
+   node_set is what yieldsNodeSet reports for the expression (query.go as repaired by 3036423). *)
+
+(* MatchAll on a node-set query returns exactly the engine's iteration: every node, in iteration
+   order, duplicates kept (also the context node twice in a row, as in "b/.."), nothing else. *)
+Theorem match_all_is_the_iteration :
+  forall (S N : Type) (next : S -> istep S N) (eqb : N -> N -> bool) self s l,
+  (exists fuel, match_all next eqb true false self (Some s) fuel = WOk l) <-> yields S N next s l false.
 Proof. exact match_all_is_the_iteration. Qed.
 
-Theorem match_all_enough_fuel : forall (S N : Type) (next : S -> istep S N) self s l b fuel,
+Theorem match_all_enough_fuel :
+  forall (S N : Type) (next : S -> istep S N) (eqb : N -> N -> bool) self s l b fuel,
   yields S N next s l b -> List.length l < fuel ->
-  match_all next false self (Some s) fuel = if b then WErr EQueryFailed else WOk l.
+  match_all next eqb true false self (Some s) fuel = if b then WErr EQueryFailed else WOk l.
 Proof. exact match_all_enough_fuel. Qed.
+
+(* Whatever the probe says: an iteration that ends and never has the context node right after
+   itself is returned as it is (e.g. a boolean query whose value is false: nothing). *)
+Theorem match_all_no_adjacent_self :
+  forall (S N : Type) (next : S -> istep S N) (eqb : N -> N -> bool) node_set self s l fuel,
+  yields S N next s l false -> adjacent_self N eqb self l = false -> List.length l < fuel ->
+  match_all next eqb node_set false self (Some s) fuel = WOk l.
+Proof. exact match_all_no_adjacent_self. Qed.
+
+(* N11 repaired: a query that is not a node-set query and whose iterator yields the context node
+   for ever (a comparison that is true) - MatchAll terminates with exactly [context node] ... *)
+Theorem match_all_non_node_set_true :
+  forall (S N : Type) (next : S -> istep S N) (eqb : N -> N -> bool) self s fuel,
+  eqb self self = true -> loops_on S N next self s -> 2 <= fuel ->
+  match_all next eqb false false self (Some s) fuel = WOk [self].
+Proof. exact match_all_non_node_set_true. Qed.
+
+(* ... MatchSingle reports "more than expected" and MatchAny true ... *)
+Theorem non_node_set_true_single_any : forall (S N : Type) (next : S -> istep S N) self s,
+  loops_on S N next self s ->
+  match_single next false self (Some s) = WErr EMoreThanExpected /\ match_any next s = true.
+Proof. exact non_node_set_true_single_any. Qed.
+
+(* ... whereas MatchAll as it was before the repair never returned on it (any fuel), shown on a
+   concrete iterator: MatchAll(n, "1 = 1"). *)
+Theorem match_all_old_never_returns : forall (S N : Type) (next : S -> istep S N) self s,
+  loops_on S N next self s -> forall fuel, match_all_old next false self (Some s) fuel = WOutOfFuel.
+Proof. exact match_all_old_never_returns. Qed.
+
+Theorem match_all_old_refuted :
+  exists (next : list N -> istep (list N) N) (self : N) (s : list N),
+    (forall fuel, match_all_old next false self (Some s) fuel = WOutOfFuel) /\
+    match_all next N.eqb false false self (Some s) 2 = WOk [self].
+Proof. exact match_all_old_refuted. Qed.
 
 (* MatchSingle: ErrNoMatch / the node / ErrMoreThanExpected by the number of nodes iterated. *)
 Theorem match_single_classification : forall (S N : Type) (next : S -> istep S N) self s l,
@@ -202,8 +241,8 @@ Proof. exact match_single_on_panic. Qed.
 
 (* The two entry points answer one question (the oracle the harness applies to every query). *)
 Theorem match_single_consistent_with_match_all :
-  forall (S N : Type) (next : S -> istep S N) self s fuel l,
-  match_all next false self (Some s) fuel = WOk l ->
+  forall (S N : Type) (next : S -> istep S N) (eqb : N -> N -> bool) self s fuel l,
+  match_all next eqb true false self (Some s) fuel = WOk l ->
   match_single next false self (Some s) = classify N l.
 Proof. exact match_single_consistent_with_match_all. Qed.
 
@@ -329,10 +368,22 @@ Qed.
 (* an iterator that yields 7, 7, 9 (a duplicate): MatchAll keeps all three in order,
    MatchSingle says "more than expected", MatchAny true *)
 Example ex_wrappers :
-  yields (list N) N (script_next false) [7; 7; 9]%N [7; 7; 9]%N false /\
-  match_all (script_next false) false 0%N (Some [7; 7; 9]%N) 4 = WOk [7; 7; 9]%N /\
-  match_single (script_next false) false 0%N (Some [7; 7; 9]%N) = WErr EMoreThanExpected /\
-  match_single (script_next false) false 0%N (Some [7]%N) = WOk 7%N /\
-  match_single (script_next false) false 0%N (Some []) = WErr ENoMatch /\
-  match_any (script_next false) [7; 7; 9]%N = true.
-Proof. split; [apply script_yields|]. repeat split. Qed.
+  yields (list N) N (script_next TEnd 0%N) [7; 7; 9]%N [7; 7; 9]%N false /\
+  match_all (script_next TEnd 0%N) N.eqb true false 0%N (Some [7; 7; 9]%N) 4 = WOk [7; 7; 9]%N /\
+  match_single (script_next TEnd 0%N) false 0%N (Some [7; 7; 9]%N) = WErr EMoreThanExpected /\
+  match_single (script_next TEnd 0%N) false 0%N (Some [7]%N) = WOk 7%N /\
+  match_single (script_next TEnd 0%N) false 0%N (Some []) = WErr ENoMatch /\
+  match_any (script_next TEnd 0%N) [7; 7; 9]%N = true.
+Proof. split; [apply (script_yields TEnd); discriminate|]. repeat split. Qed.
+
+(* "b/..": a node-set query that yields the context node 5 twice in a row - both come back *)
+Example ex_legit_duplicate_context :
+  match_all (script_next TEnd 5%N) N.eqb true false 5%N (Some [5; 5]%N) 3 = WOk [5; 5]%N.
+Proof. reflexivity. Qed.
+
+(* the iterator of MatchAll(n, "1 = 1") loops on the context node; a false comparison iterates nothing *)
+Example ex_non_node_set :
+  loops_on (list N) N (script_next TLoopSelf 5%N) 5%N [] /\
+  match_all (script_next TLoopSelf 5%N) N.eqb false false 5%N (Some []) 2 = WOk [5%N] /\
+  match_all (script_next TEnd 5%N) N.eqb false false 5%N (Some []) 1 = WOk [].
+Proof. split; [apply script_loops|]. split; reflexivity. Qed.
